@@ -15,6 +15,7 @@ From ACH Require Import PartialTable.
 Open Scope string_scope.
 
 Definition accounted : list acct := [
+  mkacct "ach.File.ValidateWith" "b.GetHeader().StandardEntryClassCode" "search-only: optional sub-record dereferenced without a syntactically dominating nil test (File.IsADV, called first, installs a header on every batch it visits)";
   mkacct "ach.Addenda98.Validate" "changeCodeDict[addenda98.ChangeCode]" "search-only: map lookup (never panics), not told apart from an index syntactically";
   mkacct "ach.Addenda98.ChangeCodeField" "changeCodeDict[addenda98.ChangeCode]" "search-only: map lookup (never panics), not told apart from an index syntactically";
   mkacct "ach.LookupChangeCode" "changeCodeDict[strings.ToUpper(code)]" "search-only: map lookup (never panics), not told apart from an index syntactically";
